@@ -13,6 +13,16 @@ EVAL_POL = "<" + AGENT + "::policies::Policies<" + AGENT + "::policies::Candidat
 SINK = "<bgpfu::query::RpslEvaluator as rpsl::expr::eval::Evaluator<'a>>::sink_error"
 READ_CAND = "<" + AGENT + "::policies::fetch::Maybe<" + AGENT + "::policies::Candidate> as netconf::message::ReadXml>::read_xml"
 
+def eval_cand(fx):
+    """Candidate's evaluation function: the Evaluate impl, or an inherent method of that name if the impl was turned into one."""
+    if EVAL_CAND in fx.thir:
+        return EVAL_CAND
+    c = [n for n in fx.thir if n.endswith("::evaluate") and "policies::Candidate" in n and "Policies<" not in n and "{closure" not in n and AGENT in n]
+    if len(c) == 1:
+        return c[0]
+    raise F.AnchorLost("Candidate's evaluate function not found (%d candidates)" % len(c))
+
+
 EXPLANATION = (
     "[Method] Decided by abstract interpretation of the THIR of compare, Candidate::evaluate, Policies::evaluate, the as-set resolver and the annotation reader (vlib/absint.py: local functions and closures inlined, Option/Result combinators and `?` interpreted, undecided branches fork the path): the verdict does not depend on how the source spells the logic. "
     "C03/R1 (TABLE): in Policies<Evaluated>::compare, over the exhaustive abstract domain evaluated in {absent, present/ranges=None, "
@@ -91,7 +101,8 @@ def chain(e):
 def r2_eval(chk, fx):
     """Candidate::evaluate by abstract interpretation: evaluator Ok(set) => ranges = Some(f(set)); Err => ranges = None — never a default."""
     from vlib import absint as A
-    t = fx.thir_body(EVAL_CAND)
+    EC = eval_cand(fx)
+    t = fx.thir_body(EC)
     chk.analysed(t["def"])
 
     def hook(fn, args, node, interp):
@@ -99,7 +110,7 @@ def r2_eval(chk, fx):
             interp.trace.append(("call", fn, tuple(args), node.get("sp")))
             return ("sym", "EVALUATED")
         return None
-    paths = A.Interp(fx, hook=hook, crates=(AGENT, "bgpfu")).explore(EVAL_CAND)
+    paths = A.Interp(fx, hook=hook, crates=(AGENT, "bgpfu")).explore(EC)
     seen = {}
     for p in paths:
         kv = p.assume.get("variant:«EVALUATED»")
@@ -128,14 +139,14 @@ def r2_eval(chk, fx):
         detail="a defaulting combinator (unwrap_or*, or_else(Ok(..)), Default) would turn a failed evaluation into an empty set")
     chk.instance("C03/R2", "the expression evaluated is the candidate's own filter_expr (and it is kept in the result)", t["def"], loc_of(t.get("sp")),
                  holds=bool(seen.get("own")) and all(seen["own"]) and all(seen.get("fe", [False])), key="C03/R2 Candidate::evaluate evaluated-expr")
-    it = fx.fn_item(EVAL_CAND)
+    it = fx.fn_item(EC)
     chk.instance("C03/R2", "Candidate::evaluate returns a plain Evaluated (errors cannot escape as Err)", it["def"], loc_of(it.get("sp")),
                  holds=it["output"].endswith("policies::Evaluated"), key="C03/R2 Candidate::evaluate signature")
     # Policies::evaluate: one-to-one — every (name, candidate) of self.map is mapped to (name, candidate.evaluate(..)), nothing filtered
     t2 = fx.thir_body(EVAL_POL)
 
     def hook2(fn, args, node, interp):
-        if fn.endswith("Evaluate::evaluate") or fn == EVAL_CAND:
+        if fn.endswith("Evaluate::evaluate") or fn == EC or T.strip_generics(fn) == T.strip_generics(EC):
             return ("term", "EVAL", (args[0],))
         return None
     paths = A.Interp(fx, hook=hook2, crates=(AGENT,)).explore(EVAL_POL)
@@ -177,6 +188,7 @@ def r2_eval(chk, fx):
             entry_ok = False
             if one:
                 it2 = A.Interp(fx, hook=hook2, crates=(AGENT,))
+                it2.havoc_mut_captures = True
                 it2.trace, it2.assume, it2._script, it2._pos, it2._taken, it2._alts, it2._sym, it2._occ = [], {}, [], 0, [], [], 0, {}
                 try:
                     r = it2.apply(maps[0][2][1], [("tuple", (("sym", "NAME"), ("sym", "CANDIDATE")))], {"sp": None}, 0)
